@@ -164,6 +164,7 @@ type Path struct {
 	notes     []string
 	mapPerm   bool
 	digests   map[string]NF // hash / hex models: same input, same output
+	uuidDistinct bool // rt.DistinctUUIDs: draws of the random source are fixed pairwise distinct values
 	unwind    int // loop bound stated by the harness (rt.Unwind), 0 = engine default
 	selectChoice bool
 	allocLimit int64
